@@ -316,6 +316,49 @@ def oracle(rep, rnd, tier):
             if got[0] != "val" or got[1] != want:
                 rep.violation("input", "%s gives %s, calendar says %s" % (src, got, want), check="program",
                               program=src, got=list(got), want=want)
+    # (d) the same laws for dates with a time of day, concentrated where the day number crosses a
+    #     power of two (the float spacing changes there) and on large offsets
+    nt2 = 2500 if tier != "thorough" else 40000
+    pows = [2 ** k for k in range(2, 22)]
+    for i in range(nt2):
+        r = rnd.random()
+        if r < 0.6:
+            p2 = rnd.choice(pows[8:])
+            n0 = p2 - rnd.randint(1, 40)
+            k = rnd.randint(1, 80)
+        elif r < 0.8:
+            n0 = rnd.randint(2, 2958465 - 200000)
+            k = rnd.choice([100000, 36525, 146097, 200000, rnd.randint(1, 200000)])
+        else:
+            n0 = rnd.randint(2, 2958465 - 400)
+            k = rnd.randint(1, 366)
+        if rnd.random() < 0.3:
+            n0, k = n0 + k, -k
+        if not (2 <= n0 <= 2958465 and 2 <= n0 + k <= 2958465):
+            continue
+        base = datetime.date.fromordinal(n0 + BASE)
+        hh, mm, ss = rnd.randint(0, 23), rnd.randint(0, 59), rnd.randint(0, 59)
+        ds = "%04d%02d%02d%02d%02d%02d" % (base.year, base.month, base.day, hh, mm, ss)
+        tgt = datetime.date.fromordinal(n0 + k + BASE)
+        ts = "%04d%02d%02d%02d%02d%02d" % (tgt.year, tgt.month, tgt.day, hh, mm, ss)
+        pk = "+ %d" % k if k >= 0 else "- %d" % -k
+        mk = "- %d" % k if k >= 0 else "+ %d" % -k
+        sx = lambda s: "(s" + "".join(" %d" % ord(c) for c in s) + ")"
+        progs2 = [
+            ("def d = date('%s'); (d %s) - d" % (ds, pk), "(i %d)" % k),
+            ("def d = date('%s'); d - (d %s)" % (ds, pk), "(i %d)" % -k),
+            ("def d = date('%s'); string((d %s) %s)" % (ds, pk, mk), sx(ds)),
+            ("def d = date('%s'); string(d %s)" % (ds, pk), sx(ts)),
+            ("string(date(decimal(date('%s'))))" % ds, sx(ds)),
+        ]
+        for src, want in progs2:
+            got = interp_mod.run_src(I, src)
+            rep.count()
+            rep.nontriv(("prog", src))
+            if got[0] != "val" or got[1] != want:
+                rep.violation("input", "%s gives %s, calendar says %s" % (src, got, want), check="program",
+                              program=src, got=list(got), want=want)
+    rep.sample({"kind": "program with time of day", "src": progs2[0][0], "want": progs2[0][1]})
     rep.sample({"kind": "program", "src": progs[0][0], "want": progs[0][1]})
     rep.sample({"kind": "conversion", "day": "2020-12-31", "daynum": datetime.date(2020, 12, 31).toordinal() - BASE})
 
